@@ -26,15 +26,31 @@ def gen_scenario(rng, tier, prepop_kinds=()):
     for k in range(ntor):
         version = rng.choice([1, 2, 3])
         layout = rng.choice(["single", "flat", "flat", "nested", "nested", "empties", "boundary", "samebase"])
-        if rng.random() < 0.06:
+        c = rng.random()
+        if c < 0.06:
             layout = "large"
-        elif rng.random() < 0.03:
+        elif c < 0.075:
+            layout = "huge"
+        elif c < 0.095:
+            layout = "swarm"
+        elif c < 0.125:
             layout = "utf8hash"
         if layout == "boundary":
             n = rng.randint(2, 5)
             files = [[f"b{j}", rng.choice([pl, 2 * pl, 3 * pl, pl, 2 * pl + rng.choice([0, 0, 9, 1]), 77]),
                       rng.randrange(1 << 30)] for j in range(n)]
             tree = {"name": names[k], "single": False, "files": files, "dirs": [], "layout": "boundary"}
+        elif layout == "huge":
+            # one file of 9-11 MiB (copy buffers, chunked / resumed copies, thousands of blocks)
+            files = [["sub/huge.bin", rng.choice([9 << 20, (10 << 20) + 12345, (11 << 20) - 1, (8 << 20) + 4096 + 7]),
+                      rng.randrange(1 << 30)], ["small.txt", rng.choice([0, 40000, 77]), rng.randrange(1 << 30)]]
+            tree = {"name": names[k], "single": False, "files": files, "dirs": [], "layout": "huge"}
+        elif layout == "swarm":
+            # well over a thousand tiny files: a single piece spans more than a thousand of them
+            n = rng.randint(1050, 1800)
+            files = [[f"t/{j % 7}/{j:05d}.txt", rng.choice([1, 2, 5, 9, 12]), rng.randrange(1 << 30)] for j in range(n)]
+            files.append(["tail.bin", rng.choice([pl, 100, pl + 1]), rng.randrange(1 << 30)])
+            tree = {"name": names[k], "single": False, "files": files, "dirs": [], "layout": "swarm"}
         elif layout == "large":
             files = [["sub/big.bin", rng.choice([1 << 20, (1 << 20) + 12345, 3 * (1 << 20) + 7, 2 * (1 << 20)]) +
                       rng.choice([0, 1, 4096]), rng.randrange(1 << 30)], ["small.txt", rng.choice([0, 40000, 77]), rng.randrange(1 << 30)]]
@@ -78,7 +94,7 @@ def gen_scenario(rng, tier, prepop_kinds=()):
     for kind in prepop_kinds:
         t = rng.randrange(ntor)
         f = rng.randrange(len(torrents[t]["tree"]["files"]))
-        big = [(ti, 0) for ti, tt in enumerate(torrents) if tt["tree"]["layout"] == "large"]
+        big = [(ti, 0) for ti, tt in enumerate(torrents) if tt["tree"]["layout"] in ("large", "huge")]
         if big and kind in ("shorter", "shorter-wrong", "wrong"):
             t, f = big[0]
         prepop.append({"torrent": t, "file": f, "kind": kind, "cseed": rng.randrange(1 << 30)})
@@ -234,6 +250,8 @@ def build_world(case, scratch):
             data = content(p["cseed"], max(1, f[1] - 1 - p["cseed"] % max(1, f[1])))     # not a prefix of the genuine file
             if f[1] > (1 << 20) + 10:
                 data = content(p["cseed"], f[1] - 1 - p["cseed"] % (f[1] - (1 << 20) - 1))   # keeps >= 1 MiB of wrong bytes
+            if f[1] > (8 << 20) + 10 and p["cseed"] % 3:
+                data = content(p["cseed"], f[1] - 1 - p["cseed"] % (f[1] - (8 << 20) - 1))   # keeps >= 8 MiB of wrong bytes
         else:  # unrelated
             target = os.path.join(world["dest"], m["tree"]["name"] if not m["tree"]["single"] else "", "unrelated.dat")
             os.makedirs(os.path.dirname(target), exist_ok=True)
@@ -656,7 +674,9 @@ class C14:
                     viol.append(oracles.V("placed-file-is-no-copy-of-a-search-file", path=rel, run=rep))
                 wrong_same_size = size and rel in world["placed_expect"] and dig != world["placed_expect"][rel][1] and \
                     size == world["placed_expect"][rel][0]
-                if dig in world["decoy_digests"] or wrong_same_size:
+                genuine_here = rel in world["placed_expect"] and dig == world["placed_expect"][rel][1]
+                # (tiny files: a decoy made for ANOTHER file may consist of the very bytes that belong here)
+                if (dig in world["decoy_digests"] and not genuine_here) or wrong_same_size:
                     # the statement forbids placing a file NONE of whose bytes verify; a candidate that agrees with
                     # the genuine file on the slice lying in the first piece containing it did verify there
                     partly = False
